@@ -10,6 +10,7 @@ import (
 	"net/http"
 	"net/http/httptest"
 	"strings"
+	"time"
 
 	"github.com/labstack/echo/v4"
 	"github.com/labstack/echo/v4/middleware"
@@ -220,6 +221,15 @@ func genC07(rng *rand.Rand, n int, emit func(Case), dist map[string]int) {
 					return errv
 				}
 			})
+		}
+		if rng.Intn(5) == 0 && commitBefore == 0 {
+			// the Timeout middleware (generous limit, never fires) between Recover and the handler: it serves the handler
+			// through a buffering writer of net/http, which must not swallow the error response.
+			// (Only for errors raised before anything was written: what a handler wrote earlier sits in the buffer of
+			// http.TimeoutHandler, which drops it when the handler fails - the documented behaviour of that buffer, and
+			// not something the error handler does.)
+			e.Use(middleware.TimeoutWithConfig(middleware.TimeoutConfig{Timeout: 20 * time.Second}))
+			dist["behind_timeout_middleware"]++
 		}
 		e.Any("/fail", h, mws...)
 		e.GET("/ok", func(c echo.Context) error { return c.String(200, "fine") })
